@@ -39,6 +39,14 @@ def gen_case(rng, quick):
             case["init"] = "random"
     ninit = len(case["init"]) if isinstance(case["init"], list) else 1
     case["nts"] = rng.randint(ninit, ncand)
+    # history: the same estimator object was fitted before on OTHER data of the same shape
+    # (a cold fit must start from scratch; the model knows nothing of the earlier fit)
+    # exact power-of-two rescaling of X and y (binary64 stays exact; catches absolute tolerances)
+    case["scale_pow"] = rng.choice([0, 0, 0, -8, -14, -20, 12])
+    if rng.random() < 0.3:
+        case["prefit"] = dict(X=S.gen_matrix(rng, n, d, rng.choice(S.FAMILIES)),
+                              y=None if case["y"] is None else S.gen_y(rng, n, len(case["y"][0])),
+                              nts=rng.randint(ninit, ncand))
     return case
 
 
@@ -49,8 +57,16 @@ def run_impl(case):
         extra["mixing"] = case["a4"] / 4.0
         scale = 4
     stages = [dict(nts=case["nts"])]
-    out, sel = S.run_chain(case["kind"], case["axis"], case["X"], case["y"], case["init"], stages,
-                           extra=extra, scale=scale)
+    sp = case.get("scale_pow", 0)
+    f = 2.0 ** sp
+
+    def sc(M):
+        return None if M is None else [[v * f for v in r] for r in M]
+    pre = case.get("prefit")
+    if pre is not None:
+        pre = dict(pre, X=sc(pre["X"]), y=sc(pre["y"]))
+    out, sel = S.run_chain(case["kind"], case["axis"], sc(case["X"]), sc(case["y"]), case["init"], stages,
+                           extra=extra, scale=scale * 2.0 ** (-2 * sp), prefit=pre, data_scale=2.0 ** (-sp))
     return out[0]
 
 
@@ -208,6 +224,8 @@ def run(ctx):
         stats["multi_init"] += isinstance(c["init"], list) and len(c["init"]) > 1
         stats["random_init"] += c["init"] == "random"
         stats["errors"] += "error" in r
+        stats["scaled"] = stats.get("scaled", 0) + (c.get("scale_pow", 0) != 0)
+        stats["prefit_history"] = stats.get("prefit_history", 0) + ("prefit" in c)
     # distinct / non-trivial: >= 3 steps, and a tie or a running-minimum update occurred
     seen, nontrivial = set(), 0
     for c, r in zip(cases, recs):
